@@ -72,6 +72,8 @@ pub struct MupShadow {
 	pub bcast: Arc<Bcast>,
 	pub fee: Arc<Fee>,
 	pub logger: Arc<RingLogger>,
+	/// the asynchronous persister behind a shadow ChainMonitor (C19 d)
+	pub asynchronous: crate::asyncshadow::AsyncShadow,
 }
 
 pub fn new_mup(store: Arc<RecStore>, idx: usize, cfg: &NodeCfg, fee_now: u32, max_pending: u64) -> (Mup, Arc<Keys>, Arc<Bcast>, Arc<Fee>, Arc<RingLogger>) {
@@ -83,7 +85,7 @@ impl MupShadow {
 	pub fn new(idx: usize, cfg: &NodeCfg, fee_now: u32, max_pending: u64) -> MupShadow {
 		let store = Arc::new(RecStore::default());
 		let (mup, keys, bcast, fee, logger) = new_mup(store.clone(), idx, cfg, fee_now, max_pending);
-		MupShadow { store, mup, max_pending, snapshots: Mutex::new(HashMap::new()), keys, bcast, fee, logger }
+		MupShadow { store, mup, max_pending, snapshots: Mutex::new(HashMap::new()), keys, bcast, fee, logger, asynchronous: crate::asyncshadow::AsyncShadow::new(idx, cfg, fee_now, max_pending) }
 	}
 	fn done(&self, st: ChannelMonitorUpdateStatus, m: &ChannelMonitor<TapSigner>) {
 		if st == ChannelMonitorUpdateStatus::Completed {
@@ -95,12 +97,14 @@ impl MupShadow {
 		self.snapshots.lock().unwrap().insert((m.channel_id(), m.get_latest_update_id()), m.encode());
 		let st = self.mup.persist_new_channel(n, m);
 		self.done(st, m);
+		self.asynchronous.persist_new(m);
 	}
 	pub fn update(&self, n: MonitorName, u: Option<&ChannelMonitorUpdate>, m: &ChannelMonitor<TapSigner>) {
 		use lightning::chain::chainmonitor::Persist;
 		self.snapshots.lock().unwrap().insert((m.channel_id(), m.get_latest_update_id()), m.encode());
 		let st = self.mup.update_persisted_channel(n, u, m);
 		self.done(st, m);
+		self.asynchronous.update(u, m);
 	}
 	pub fn read_snapshot(&self, chan: ChannelId, id: u64) -> Option<ChannelMonitor<TapSigner>> {
 		let b = self.snapshots.lock().unwrap().get(&(chan, id)).cloned()?;
